@@ -5,6 +5,7 @@ From ReqV Require Import Lib.Bytes Lib.BigEndian Model.BodyFraming Model.StreamB
   Proofs.BodyFramingProofs Proofs.QuicVarintProofs Proofs.StreamBodyProofs Proofs.StreamWireProofs.
 From ReqV Require Model.H2Frame Proofs.StreamWireH2Proofs.
 From ReqV Require Import Model.Interim Proofs.InterimProofs.
+From ReqV Require Import Proofs.StreamWireTrailerProofs.
 From ReqV Require Import Model.TlsConn Proofs.TlsConnProofs.
 From ReqV Require Import Model.RespRead Model.DupLength Proofs.RespReadProofs.
 Local Open Scope nat_scope.
@@ -309,6 +310,26 @@ Theorem C03_h3_complete_exact : forall fs cl, Forall df_wf fs ->
   h3_wire_read true cl (h3_render fs) EndFin = (h3_body fs, W3 H3Clean).
 Proof. exact h3_wire_complete_thm. Qed.
 Print Assumptions C03_h3_complete_exact.
+
+(* DATA frames followed by the trailer section (a HEADERS frame, any varint widths, non-empty
+   field section): the stream ending ANYWHERE inside that frame - inside its type, inside its
+   length, right behind its header before the first byte of the field section, inside the
+   field section - delivers the whole body and then an error, however the stream ends and
+   whether or not the length was declared *)
+Theorem C03_h3_trailer_cut_detected : forall fs lt ll tp cl j e, Forall df_wf fs -> tr_wf lt ll tp ->
+  cl = None \/ cl = Some (lenN (h3_body fs)) ->
+  0 < j < length (tr_render lt ll tp) ->
+  h3_wire_read true cl (h3_render fs ++ firstn j (tr_render lt ll tp)) e =
+    (h3_body fs, W3 (h3_end_inside true e)) /\
+  h3_end_inside true e <> H3Clean.
+Proof. exact h3_trailer_cut_thm. Qed.
+Print Assumptions C03_h3_trailer_cut_detected.
+
+Theorem C03_h3_trailer_complete : forall fs lt ll tp cl, Forall df_wf fs -> tr_wf lt ll tp ->
+  cl = None \/ cl = Some (lenN (h3_body fs)) ->
+  h3_wire_read true cl (h3_render fs ++ tr_render lt ll tp) EndFin = (h3_body fs, W3 H3Clean).
+Proof. exact h3_trailer_complete_thm. Qed.
+Print Assumptions C03_h3_trailer_complete.
 
 (* on whole frames the byte-level reader is the event-level reader *)
 Theorem C03_h3_wire_refines_events : forall fs strict cl e, Forall df_wf fs ->
